@@ -209,7 +209,12 @@ where
     type Stream = Self;
 
     fn into_parts(self) -> (Vector<VectorDiffContainerStreamElement<S>>, Self::Stream) {
-        (self.buffered_vector.clone(), self)
+        let mut values = self.buffered_vector.clone();
+        if self.limit < values.len() {
+            values.truncate(self.limit);
+        }
+
+        (values, self)
     }
 }
 
